@@ -74,7 +74,10 @@ fn c02_besteffort_data_step() {
     core::mem::forget(data);
 }
 
-// @check props=C02 tier=quick
+// NOT INDEXED (measured: symbolic execution 92 s, 0.9 M steps, then CBMC runs out of 12 GB in propositional reduction
+// after 475 s): any DATA_FRAG step through RtpsStatefulReader is out of reach on this machine. Kept as the record of the
+// obligation that could not be decided; see vlib/ptab/rtps_proto.py C02 "outside".
+// @disabled-check props=C02 tier=quick
 // @desc Best-effort reader DATA_FRAG step on an empty fragment buffer: one fragment (symbolic index) of a 2-fragment sample with EVERY sequence number (symbolic around the floor) is delivered through on_data_frag_submessage: no change is appended and the floor (available_changes_max) does not move - a fragment alone never produces a sample, whatever its sequence number; completion of a buffered sample is c05_reassembly_step_besteffort.
 // @bounds 3-byte sample, fragment size 2, fragment index 0..=1, floor symbolic <= 1000, sn symbolic in 0..=1002; unwind 4
 // @enc rtps::stateful_reader::RtpsStatefulReader::on_data_frag_submessage
@@ -84,10 +87,9 @@ fn c02_besteffort_data_step() {
 #[kani::unwind(4)]
 fn c02_besteffort_frag_step() {
     let mut r = s::new_reader(ReliabilityKind::BestEffort);
-    let first: i64 = kani::any();
-    let highest: i64 = kani::any();
-    kani::assume(first >= 1 && highest >= 0 && first <= 1000 && highest <= 1000);
-    s::set_proxy_state(&mut r, first, 0, highest);
+    let floor: i64 = kani::any();
+    kani::assume(floor >= 0 && floor <= 1000);
+    s::proxy(&mut r).irrelevant_change_set(floor);
     let old_max = s::proxy(&mut r).available_changes_max();
     let sn: i64 = kani::any();
     kani::assume(sn >= 0 && sn <= 1002);
